@@ -75,6 +75,10 @@ func owner(frames []string) (name string, harness bool) {
 			return stripArgs(strings.TrimPrefix(f, lalPrefix)), false
 		case strings.HasPrefix(f, nazaPrefix):
 			return "naza/" + stripArgs(strings.TrimPrefix(f, nazaPrefix)), false
+		case strings.HasPrefix(f, verifPfx+"checks/c20.marshalSnapshot("):
+			// the harness serialises a value lal RETURNED (what lal's HTTP API and notify path do with it, outside
+			// lal's locks): a conflicting access is lal still writing into memory it has handed out
+			return "json.Marshal(api result)", false
 		case strings.HasPrefix(f, verifPfx):
 			return stripArgs(f), true
 		}
